@@ -2,7 +2,7 @@
    take as premises are met by the merklearray model of C37 (model/MerkleArray.v) for every
    hash satisfying C37's explicit hash assumptions. *)
 From Coq Require Import NArith List Bool Lia ZifyN ZifyNat ZifyBool.
-From Verif.model Require Import MerkleArray MerkleArraySpec StateProof.
+From Verif.model Require Import MerkleArray MerkleArraySpec StateProof StateProofSpec.
 From Verif.proofs Require Import MerkleArrayVC MerkleArrayFinal StateProofProofs.
 Import ListNotations.
 
@@ -13,22 +13,11 @@ Section Inst.
   Variable hbottom : digest.
   Variable hnode : list N -> digest.
 
-  Definition mroot (arr : list E) : digest := rootOf (buildVC E s hleaf hbottom hnode arr).
-  Definition mprove (arr : list E) (idxs : list N) : option proof :=
-    match prove (buildVC E s hleaf hbottom hnode arr) idxs with inl pf => Some pf | inr _ => None end.
-  Definition mverify (r : digest) (elems : list (N * E)) (pf : proof) : bool :=
-    match verifyVC E s hleaf hnode r elems pf with VOk => true | _ => false end.
-  Definition mtreedepth (arr : list E) : N := depthOf (buildVC E s hleaf hbottom hnode arr).
-  (* where an accepted index really lives: mapped with the CLAIMED depth and back with the tree's *)
-  Definition mposmap (arr : list E) (pf : proof) (i : N) : N :=
-    if (p_depth pf =? mtreedepth arr)%N then i
-    else match vcIndex i (p_depth pf) with
-         | Some p => match vcIndex p (fst (vcShape (N.of_nat (length arr)))) with
-                     | Some lsb => lsb
-                     | None => i
-                     end
-         | None => i
-         end.
+  Local Notation mroot := (StateProofSpec.mroot E s hleaf hbottom hnode).
+  Local Notation mprove := (StateProofSpec.mprove E s hleaf hbottom hnode).
+  Local Notation mverify := (StateProofSpec.mverify E s hleaf hnode).
+  Local Notation mtreedepth := (StateProofSpec.mtreedepth E s hleaf hbottom hnode).
+  Local Notation mposmap := (StateProofSpec.mposmap E s hleaf hbottom hnode).
 
   Lemma prove_depth : forall t idxs pf, prove t idxs = inl pf -> p_depth pf = depthOf t.
   Proof.
@@ -43,7 +32,7 @@ Section Inst.
   Lemma depth_small : hash_sizes E s hleaf hbottom hnode ->
     forall arr, (length arr <= 1024)%nat -> (mtreedepth arr <= MaxTreeDepth)%N.
   Proof.
-    intros (H1 & H2 & H3) arr Hn. unfold mtreedepth.
+    intros (H1 & H2 & H3) arr Hn. unfold StateProofSpec.mtreedepth.
     rewrite (depthOf_vc E s hleaf hbottom hnode H1 H2 H3). unfold expOf, nOf, pathOf, vcShape, MaxTreeDepth.
     destruct (N.leb_spec (N.of_nat (length arr)) 1) as [|Hgt]; [cbn; lia|].
     cbn [fst]. rewrite N2Nat.id.
@@ -62,7 +51,7 @@ Section Inst.
     destruct (complete_vc_final E s hleaf hbottom hnode arr idxs elems Hs) as (pf & EP & EV).
     - repeat split; [exact Hne | exact Hr |]. change (2 ^ 63)%N with 9223372036854775808%N. lia.
     - split; assumption.
-    - exists pf. unfold mprove, mverify, mroot. rewrite EP, EV. repeat split.
+    - exists pf. unfold StateProofSpec.mprove, mverify, mroot. rewrite EP, EV. repeat split.
       rewrite (prove_depth _ _ _ EP). apply (depth_small Hs arr Hn).
   Qed.
 
@@ -70,12 +59,12 @@ Section Inst.
     vc_sound mroot mverify p_depth mtreedepth mposmap.
   Proof.
     intros Hs Hi. split.
-    - intros arr elems pf HV i e HI. unfold mverify, mroot in HV.
+    - intros arr elems pf HV i e HI. unfold StateProofSpec.mverify, mroot in HV.
       destruct (verifyVC E s hleaf hnode _ elems pf) eqn:EV; try discriminate.
-      unfold mposmap. destruct (N.eqb_spec (p_depth pf) (mtreedepth arr)) as [Ed|Nd].
+      unfold StateProofSpec.mposmap. destruct (N.eqb_spec (p_depth pf) (mtreedepth arr)) as [Ed|Nd].
       + eapply (sound_vc_final E s hleaf hbottom hnode arr elems pf Hs Hi EV Ed); exact HI.
       + destruct (sound_vc_leaf_final E s hleaf hbottom hnode arr elems pf Hs Hi EV i e HI)
           as (p & lsb & A & B & C). rewrite A, B. exact C.
-    - intros arr pf i Hd. unfold mposmap. rewrite Hd, N.eqb_refl. reflexivity.
+    - intros arr pf i Hd. unfold StateProofSpec.mposmap. rewrite Hd, N.eqb_refl. reflexivity.
   Qed.
 End Inst.
